@@ -349,6 +349,7 @@ package internal
 //@   prop C13
 //@   requires len(network) >= 3
 //@   ensures [no-leak] err != nil ==> (forall k :: FDOPEN[k] == old(FDOPEN[k]))
+//@   ensures [opened] err == nil ==> fd >= 0 && FDOPEN[fd] == 1
 
 // --- the poller's own descriptors (C13) ---
 //@ func (*EventFd).Close
